@@ -239,60 +239,211 @@ func propC16(c *Ctx) {
 				return len(ch) > 0 && ch[len(ch)-1] == fNotif
 			}},
 		}
-		for _, cn := range cons {
-			good := false
-			allInstrs(vcr, func(in ssa.Instruction) {
-				b, ok := in.(*ssa.BinOp)
-				if !ok || b.Op != token.EQL {
-					return
-				}
-				isColName := func(v ssa.Value) bool {
-					root, ch := fieldChain(v)
-					if !chainIs(ch, fColName) {
+		isColName := func(v ssa.Value) bool {
+			root, ch := fieldChain(v)
+			if !chainIs(ch, fColName) {
+				return false
+			}
+			s, _, ok := elemOf(root)
+			if !ok {
+				return false
+			}
+			_, sch := fieldChain(s)
+			return len(sch) > 0 && sch[len(sch)-1] == fCols
+		}
+		isColsLoad := func(v ssa.Value) bool {
+			_, ch := fieldChain(stripConv(v))
+			return len(ch) > 0 && ch[len(ch)-1] == fCols
+		}
+		// member: v is a boolean that can be true only when the name (a value
+		// satisfying nameIs, in v's function) is the Name of a table column.
+		// Forms: a found-flag set by comparing with every column's Name; a
+		// look-up in a set filled with every column's Name; slices.ContainsFunc
+		// over the columns with a predicate comparing Name; a helper (function
+		// or literal) returning one of those for its parameter.
+		var member func(v ssa.Value, nameIs func(ssa.Value) bool, d int) bool
+		member = func(v ssa.Value, nameIs func(ssa.Value) bool, d int) bool {
+			if d > 4 || v == nil {
+				return false
+			}
+			switch x := v.(type) {
+			case *ssa.Phi: // found flag
+				sawTrue := false
+				for i, pe := range x.Edges {
+					k, isC := pe.(*ssa.Const)
+					if !isC || k.Value == nil {
+						if !member(pe, nameIs, d+1) {
+							return false
+						}
+						sawTrue = true
+						continue
+					}
+					if k.Value.String() != "true" {
+						continue
+					}
+					// this edge must come from the true arm of name == column.Name
+					pred := x.Block().Preds[i]
+					okEdge := false
+					allInstrs(x.Parent(), func(in ssa.Instruction) {
+						b, isB := in.(*ssa.BinOp)
+						if !isB || b.Op != token.EQL {
+							return
+						}
+						if !((isColName(b.X) && nameIs(b.Y)) || (isColName(b.Y) && nameIs(b.X))) {
+							return
+						}
+						t, _ := boolEdges(b)
+						if edgeGuarded(x.Parent(), pred, x.Block(), t) {
+							okEdge = true
+						}
+					})
+					if !okEdge {
 						return false
 					}
-					s, _, ok := elemOf(root)
-					if !ok {
+					sawTrue = true
+				}
+				return sawTrue
+			case *ssa.Extract: // _, ok := set[name]
+				lk, isLk := x.Tuple.(*ssa.Lookup)
+				if !isLk || !lk.CommaOk || x.Index != 1 || !nameIs(lk.Index) {
+					return false
+				}
+				filled := false
+				fnOf := x.Parent()
+				for fnOf.Parent() != nil {
+					fnOf = fnOf.Parent()
+				}
+				withClosures(fnOf, func(f *ssa.Function) {
+					allInstrs(f, func(in ssa.Instruction) {
+						if mu, ok := in.(*ssa.MapUpdate); ok && sameVar(aff16(mu.Map), aff16(lk.X)) && isColName(mu.Key) {
+							filled = true
+						}
+					})
+				})
+				return filled
+			case *ssa.BinOp:
+				if x.Op == token.EQL && ((isColName(x.X) && nameIs(x.Y)) || (isColName(x.Y) && nameIs(x.X))) {
+					return true
+				}
+			case *ssa.Call:
+				if calleeName(x) == "slices.ContainsFunc" && len(x.Call.Args) == 2 && isColsLoad(x.Call.Args[0]) {
+					var pred *ssa.Function
+					switch p := stripConv(x.Call.Args[1]).(type) {
+					case *ssa.MakeClosure:
+						pred = p.Fn.(*ssa.Function)
+					case *ssa.Function:
+						pred = p
+					}
+					if pred == nil || len(pred.Params) != 1 {
 						return false
 					}
-					_, sch := fieldChain(s)
-					return len(sch) > 0 && sch[len(sch)-1] == fCols
-				}
-				if !((isColName(b.X) && cn.match(b.Y)) || (isColName(b.Y) && cn.match(b.X))) {
-					return
-				}
-				// the `found` flag: a phi that is true on this comparison's true edge; `!found` leads to an error return
-				t, _ := boolEdges(b)
-				for _, e := range t {
-					// find an If on a phi that has `true` incoming via e.To
-					for _, blk := range vcr.Blocks {
-						iff, ok := terminator(blk).(*ssa.If)
-						if !ok {
-							continue
-						}
-						phi, ok := iff.Cond.(*ssa.Phi)
-						if !ok {
-							continue
-						}
-						fromHere := false
-						for i, pe := range phi.Edges {
-							if k, ok := pe.(*ssa.Const); ok && k.Value != nil && k.Value.String() == "true" {
-								pred := phi.Block().Preds[i]
-								if pred == e.To || pred == e.From {
-									fromHere = true
+					// the predicate returns param.Name == name (name captured)
+					innerName := func(w ssa.Value) bool {
+						w = stripConv(w)
+						if u, ok := w.(*ssa.UnOp); ok {
+							if fv, ok := u.X.(*ssa.FreeVar); ok {
+								if bnd := (&apWalker{}).freeVarBinding(fv); bnd != nil {
+									if al, ok := bnd.(*ssa.Alloc); ok {
+										if cv := cellValue(al); cv != nil {
+											return nameIs(cv)
+										}
+									}
+									return nameIs(bnd)
 								}
 							}
 						}
-						if !fromHere {
+						return nameIs(w)
+					}
+					okPred := true
+					for _, r := range returnsOf(pred) {
+						for _, lf := range phiLeaves(returnValues(r)[0]) {
+							b, isB := lf.Val.(*ssa.BinOp)
+							if !isB || b.Op != token.EQL {
+								okPred = false
+								continue
+							}
+							isParamName := func(w ssa.Value) bool {
+								root, ch := fieldChain(w)
+								return chainIs(ch, fColName) && stripConv(root) == ssa.Value(pred.Params[0])
+							}
+							if !((isParamName(b.X) && innerName(b.Y)) || (isParamName(b.Y) && innerName(b.X))) {
+								okPred = false
+							}
+						}
+					}
+					return okPred
+				}
+				// a helper: its result is a membership test of the parameter that receives the name
+				h := regionCallee(x)
+				if h == nil || !isRepoFunc(h) {
+					return false
+				}
+				pi := -1
+				for i, a := range x.Call.Args {
+					if nameIs(a) {
+						pi = i
+					}
+				}
+				off := 0
+				if h.Signature.Recv() != nil {
+					off = 0
+				}
+				if pi < 0 || pi+off >= len(h.Params) {
+					return false
+				}
+				par := h.Params[pi+off]
+				okAll := true
+				n := 0
+				for _, r := range returnsOf(h) {
+					for _, lf := range phiLeaves(returnValues(r)[0]) {
+						n++
+						if k, isC := lf.Val.(*ssa.Const); isC && k.Value != nil && k.Value.String() == "false" {
 							continue
 						}
-						// false edge → error return
-						fe := Edge{blk, blk.Succs[1]}
-						if g, _ := errorArmLeaves(vcr, fe, []Edge{{blk, blk.Succs[0]}}, nil); g {
-							good = true
+						if !member(lf.Val, func(w ssa.Value) bool { return stripConv(w) == ssa.Value(par) }, d+1) {
+							okAll = false
 						}
 					}
 				}
+				return okAll && n > 0
+			}
+			return false
+		}
+		for _, cn := range cons {
+			good := false
+			withClosures(vcr, func(f *ssa.Function) {
+				if f != vcr {
+					return
+				}
+				allInstrs(f, func(in ssa.Instruction) {
+					v, isV := in.(ssa.Value)
+					if !isV || good {
+						return
+					}
+					if b, isB := v.Type().Underlying().(*types.Basic); !isB || b.Kind() != types.Bool {
+						return
+					}
+					if _, isBin := v.(*ssa.BinOp); isBin {
+						return // the bare comparison inside a scanning loop is judged through its found flag
+					}
+					if !member(v, cn.match, 0) {
+						return
+					}
+					// not a member → validation fails
+					t, fl := boolEdges(v)
+					if len(fl) == 0 {
+						return
+					}
+					allErr := true
+					for _, fe := range fl {
+						if g, _ := errorArmLeaves(vcr, fe, t, nil); !g {
+							allErr = false
+						}
+					}
+					if allErr {
+						good = true
+					}
+				})
 			})
 			c.Check("R16.3", "ValidateColRefs/"+cn.name, vcr.Pos(), good, "every "+cn.name+" entry must name an existing table column, otherwise validation fails")
 		}
@@ -447,15 +598,32 @@ func propC16(c *Ctx) {
 			okUnion = true
 		}
 		nameCmp := false
-		allInstrs(un, func(in ssa.Instruction) {
-			if b, ok := in.(*ssa.BinOp); ok && b.Op == token.EQL {
-				_, c1 := fieldChain(b.X)
-				_, c2 := fieldChain(b.Y)
-				if len(c1) > 0 && len(c2) > 0 && c1[len(c1)-1].Name() == "Name" && c2[len(c2)-1].Name() == "Name" {
-					nameCmp = true
-				}
+		var scanFns []*ssa.Function
+		seenFn := map[*ssa.Function]bool{}
+		var addFn func(f *ssa.Function, d int)
+		addFn = func(f *ssa.Function, d int) {
+			if f == nil || seenFn[f] || d > 2 || !isRepoFunc(f) || f.Blocks == nil {
+				return
 			}
-		})
+			seenFn[f] = true
+			withClosures(f, func(g *ssa.Function) { scanFns = append(scanFns, g) })
+			for _, ci := range callsIn(f) {
+				addFn(regionCallee(ci), d+1)
+			}
+		}
+		addFn(un, 0)
+		colNameField := w.Field("wpg", "Column", "Name")
+		for _, f := range scanFns {
+			allInstrs(f, func(in ssa.Instruction) {
+				if b, ok := in.(*ssa.BinOp); ok && b.Op == token.EQL {
+					_, c1 := fieldChain(b.X)
+					_, c2 := fieldChain(b.Y)
+					if (len(c1) > 0 && c1[len(c1)-1] == colNameField) || (len(c2) > 0 && c2[len(c2)-1] == colNameField) {
+						nameCmp = true
+					}
+				}
+			})
+		}
 		c.Check("R16.4", "union/columns-by-name", un.Pos(), okUnion && nameCmp, "a shared table's definition is the union of its integrations' columns, matched by name")
 		if n < 2 {
 			c.Violation("R16.4", "Migrate/statements", mg.Pos(), fmt.Sprintf("expected the DDL and the alter statement sites, found %d", n))
@@ -508,4 +676,19 @@ func propC16(c *Ctx) {
 		c.Check("R16.5", "ingress/database", dbi.Pos(), piped,
 			"integrations stored through the dashboard are loaded by config.Integrations and reach loadTasks without AddRequiredFields/AddUniqueIndex/ValidateColRefs (only CheckUserInput ran at submission): no ig_name/src_name stamps, no unique key, no column-reference check")
 	}
+}
+
+func aff16(v ssa.Value) ssa.Value {
+	v = stripConv(v)
+	if u, ok := v.(*ssa.UnOp); ok {
+		if fv, ok := u.X.(*ssa.FreeVar); ok {
+			if b := (&apWalker{}).freeVarBinding(fv); b != nil {
+				return b
+			}
+		}
+		if al, ok := u.X.(*ssa.Alloc); ok {
+			return al
+		}
+	}
+	return v
 }
